@@ -15,10 +15,10 @@ func FormatPacketDsl(dsl string) (string, error) {
 		return "", fmt.Errorf("could not create parser: %v", err)
 	}
 	listener := NewSyntaxErrorListener()
-	parser.RemoveErrorListeners()
-	parser.AddErrorListener(listener)
+	collectSyntaxErrors(parser, stream, listener)
 	// parese the file
 	tree := parser.Packet()
+	checkAllInputConsumed(stream, listener)
 	if listener.HasErrors() {
 		return dsl, fmt.Errorf("syntax errors found: %v", listener.Errors)
 	}
